@@ -320,18 +320,18 @@ class C13(Check):
         out += [('B', si, as_tuple) for si in range(len(HIST_STREAMS)) for as_tuple in (False, True)]
         out.append(('A+', None))
         out += [('X', ch) for ch in chunked(list(seqs(CROSS_ALPHABET, 2 if self.tier == 'quick' else 3, 1)), 12 if self.tier == 'quick' else 120)]
-        out.append(('cli',))
+        out += [('cli', ti, pi) for ti in range(len(TIDS)) for pi in range(len(PROCS))]
         return out
 
-    def run_cli(self, acc):
+    def run_cli(self, acc, only_tid=None, only_proc=None):
         """`traces --no-color [--tid T] [--process P] [-cf C]... [-sf S]... [--show-tid]` prints exactly the lines the library
         gives for the same settings (so every option reaches the filter it names)."""
         from mc.cli import run_cli
         streams = [(('open+lookup', 1), ('getpid', 2), ('reply_port', 1), ('mmap', 2), ('lone-lookup', 1), ('exec-rename', 2), ('getpid', 2))]
         for opseq in streams:
             blob = build_stream(opseq)
-            for tid in TIDS:
-                for proc in PROCS:
+            for tid in (TIDS if only_tid is None else [TIDS[only_tid]]):
+                for proc in (PROCS if only_proc is None else [PROCS[only_proc]]):
                     for cl in class_lists():
                         for sc in SUBCLASS_LISTS:
                             for show_tid in ((False, True) if tid is None and proc is None else (False,)):
@@ -420,7 +420,7 @@ class C13(Check):
         if desc[0] == 'A+':
             return self.run_aplus(acc)
         if desc[0] == 'cli':
-            return self.run_cli(acc)
+            return self.run_cli(acc, desc[1], desc[2])
         if desc[0] == 'A':
             cfgs = [(t, p, c, s) for t in TIDS for p in PROCS for c in class_lists() for s in SUBCLASS_LISTS]
             for opseq in desc[1]:
